@@ -15,8 +15,8 @@ def tightened (f : Flash) (i j : Nat) (mer br : Region) (free blen : Nat) (elems
   let mer' : Region := { mer with buf := mer.buf.take bo }
   let f1 := writeLimit { f with regions := f.regions.set i mer' } i mer' (u16 (u64 (ub + 2 ^ 64 - 1)))
   let shift := u64 (bfr.baseOff + 2 ^ 64 - uo)
-  let pad : Elem := ⟨false, 0, mer.buf.drop bo, 0⟩
-  let br' : Region := { br with body := .bios (u64 (blen + shift)) (pad :: shiftElems shift elems) }
+  let pads : List Elem := if bo < mer.buf.length then [⟨false, 0, mer.buf.drop bo, 0, false⟩] else []
+  let br' : Region := { br with body := .bios (u64 (blen + shift)) (pads ++ shiftElems shift elems) }
   writeBase { f1 with regions := f1.regions.set j br' } j br' (u16 ub)
 
 theorem tighten_ok_inv (pol : Nat) (f f' : Flash) (h : tighten pol f = .ok f') :
@@ -182,10 +182,23 @@ theorem set_two {α} (pre post : List α) (a b a' b' : α) :
 /-- ⌈(meBase·4096 + free)/4096⌉ : the block index of the new ME/BIOS boundary -/
 def newBoundary (meBase free : Nat) : Nat := (meBase * 4096 + free + 4095) / 4096
 
+/-- the new leading padding: the cut-off tail, unless nothing was cut off -/
+def leadPad (tail : Bytes) : List Elem := if tail = [] then [] else [⟨false, 0, tail, 0, false⟩]
+
+theorem leadPad_of_drop (buf : Bytes) (bo : Nat) (h : bo ≤ buf.length) :
+    (if bo < buf.length then [(⟨false, 0, buf.drop bo, 0, false⟩ : Elem)] else []) = leadPad (buf.drop bo) := by
+  unfold leadPad
+  by_cases hlt : bo < buf.length
+  · have : buf.drop bo ≠ [] := by
+      intro e; have := congrArg List.length e; simp at this; omega
+    simp [hlt, this]
+  · have : buf.drop bo = [] := List.drop_of_length_le (by omega)
+    simp [hlt, this]
+
 /-- the BIOS node after `tighten_me`: the cut-off tail of the ME buffer becomes a new leading
-    padding element, `Length` and all element offsets grow by its size -/
+    padding element (none when the tail is empty), `Length` and all element offsets grow by its size -/
 def biosAfter (blen : Nat) (elems : List Elem) (tail : Bytes) : Body :=
-  .bios (blen + tail.length) (⟨false, 0, tail, 0⟩ :: shiftElems tail.length elems)
+  .bios (blen + tail.length) (leadPad tail ++ shiftElems tail.length elems)
 
 theorem frOf_idx (regs : List FRegion) (r : Region) (k : Nat) (h : r.ref = .idx k) (fr : FRegion)
     (hk : regs[k]? = some fr) : frOf regs r = .ok fr := by
@@ -284,7 +297,10 @@ theorem tighten_shape (pol : Nat) (f f' : Flash) (w : WF f) (h : tighten pol f =
     have hE : ∀ s, s ≤ mer.buf.length → u64 (blen + s) = blen + s := by
       intro s hs; unfold u64; apply Nat.mod_eq_of_lt; omega
     rw [hf', hnb]
+    have hbo0 : bufOffset fm.baseOff free ≤ mer.buf.length := by
+      simp only [FRegion.baseOff, blockSize]; rw [hbo']; exact hbo
     unfold tightened
+    simp only [leadPad_of_drop mer.buf (bufOffset fm.baseOff free) hbo0]
     simp only [writeLimit, writeBase, mref, bref, hr, setRegs01, FRegion.baseOff, blockSize]
     rw [hA, hB, hbo', hD, hE _ (by simp)]
     have hreg := set_two pre post mer br
